@@ -1,1 +1,200 @@
-// harnesses for module request (included under cfg(kani))
+// C08 (peer, request target, Host), C07 (request layout / framing headers), C09/C10 (redirect loop).
+
+include!("hmacro.rs");
+
+mod verif_request {
+    use super::*;
+    use crate::verif::{make_url, DialHost, HostSpec, UrlSpec};
+
+    pub fn settings(proxy: proxy::ProxySettings) -> BaseSettings {
+        BaseSettings {
+            headers: HeaderMap::new(),
+            root_certificates: crate::skip_debug::SkipDebug(Vec::new()),
+            max_headers: 100,
+            max_redirections: 5,
+            follow_redirects: true,
+            connect_timeout: std::time::Duration::from_secs(30),
+            read_timeout: std::time::Duration::from_secs(30),
+            timeout: None,
+            proxy_settings: proxy,
+            accept_invalid_certs: false,
+            accept_invalid_hostnames: false,
+            #[cfg(feature = "charsets")]
+            default_charset: None,
+            #[cfg(feature = "flate2")]
+            allow_compression: true,
+        }
+    }
+
+    fn push(v: &mut [u8; 64], n: &mut usize, b: &[u8]) {
+        let mut i = 0;
+        while i < b.len() {
+            v[*n] = b[i];
+            *n += 1;
+            i += 1;
+        }
+    }
+
+    /// out[..n] == want[..n] without a loop (n <= 64): the unwinding bound of these harnesses has to
+    /// stay small because std/http loops whose trip count is not constant for the symbolic
+    /// executor are unwound to the bound at every call.
+    fn same_prefix(out: &[u8], want: &[u8; 64], n: usize) -> bool {
+        macro_rules! chk {
+            ($($i:expr),*) => { $( if $i < n && (out.len() <= $i || out[$i] != want[$i]) { return false; } )* };
+        }
+        chk!(0, 1, 2, 3, 4, 5, 6, 7, 8, 9, 10, 11, 12, 13, 14, 15, 16, 17, 18, 19, 20, 21, 22, 23, 24, 25, 26, 27, 28, 29, 30, 31);
+        chk!(32, 33, 34, 35, 36, 37, 38, 39, 40, 41, 42, 43, 44, 45, 46, 47, 48, 49, 50, 51, 52, 53, 54, 55, 56, 57, 58, 59, 60, 61, 62, 63);
+        true
+    }
+
+    fn host_text(spec: &UrlSpec, out: &mut [u8; 64], n: &mut usize) {
+        match spec.host {
+            HostSpec::Domain(d) => push(out, n, d),
+            HostSpec::V4(_, t) => push(out, n, t),
+            HostSpec::V6(_, t) => {
+                push(out, n, b"[");
+                push(out, n, t);
+                push(out, n, b"]");
+            }
+        }
+    }
+
+    // NOTE (measured, see DESIGN.md section 9): set_host (format! + HeaderMap::insert) and write_request
+    // (BufWriter + write!) do not finish symbolic execution within 600 s even on fully concrete
+    // inputs: lengths coming out of core::fmt and the heap-allocated index table of HeaderMap are not
+    // constant for CBMC's symbolic executor, so every retry/probe loop is unwound to the bound.
+    // The Host-field and request-target clauses of C08 are therefore not decided; the peer-selection
+    // clause is (below).
+
+    // ---------------------------------------------------------------------------- dial target
+    fn domain_eq(h: &DialHost, want: &[u8]) -> bool {
+        match h {
+            DialHost::Domain { bytes, len } => {
+                if *len != want.len() {
+                    return false;
+                }
+                let mut i = 0;
+                while i < want.len() {
+                    if bytes[i] != want[i] {
+                        return false;
+                    }
+                    i += 1;
+                }
+                true
+            }
+            _ => false,
+        }
+    }
+
+    /// BaseStream::connect for an http URL: the peer handed to the dial hook is the proxy's
+    /// host:port (scheme default applied) when a proxy is given, else the URL's own.
+    pub fn dial_case(spec: &UrlSpec, proxy_spec: Option<&UrlSpec>) {
+        let url = make_url(spec);
+        let proxy = match proxy_spec {
+            Some(p) => Some(make_url(p)),
+            None => None,
+        };
+        let st = settings(proxy::verif_proxy_settings(None, None, Vec::new()));
+        let info = ConnectInfo {
+            url: &url,
+            proxy: proxy.as_ref(),
+            base_settings: &st,
+            deadline: None,
+        };
+        unsafe {
+            crate::verif::DIAL_COUNT = 0;
+        }
+        let r = BaseStream::connect(&info);
+        assert!(r.is_ok(), "C08: connect failed although the dial succeeded");
+        let n = unsafe { crate::verif::DIAL_COUNT };
+        assert!(n == 1, "C08: not exactly one connection dialled");
+        let rec = unsafe { crate::verif::DIAL_LOG[0] };
+        let peer = match proxy_spec {
+            Some(p) => p,
+            None => spec,
+        };
+        let want_port = match peer.port {
+            Some((v, _)) => v,
+            None => {
+                if peer.https {
+                    443
+                } else {
+                    80
+                }
+            }
+        };
+        assert!(rec.port == want_port, "C08: dialled the wrong port (proxy vs origin / scheme default)");
+        assert!(rec.https == peer.https, "C08: dialled with the wrong scheme");
+        match peer.host {
+            HostSpec::Domain(d) => assert!(domain_eq(&rec.host, d), "C08: dialled the wrong host (proxy vs origin)"),
+            HostSpec::V4(a, _) => assert!(rec.host == DialHost::V4(a), "C08: dialled the wrong IPv4 address"),
+            HostSpec::V6(a, _) => assert!(rec.host == DialHost::V6(a), "C08: dialled the wrong IPv6 address"),
+        }
+        kani::cover!(true, "must: dialled");
+        std::mem::forget(r);
+        std::mem::forget(st);
+        std::mem::forget(url);
+        std::mem::forget(proxy);
+    }
+
+    fn sym_bytes<const N: usize>(alpha: &[u8]) -> [u8; N] {
+        let v: [u8; N] = kani::any();
+        let mut i = 0;
+        while i < N {
+            let mut ok = false;
+            let mut k = 0;
+            while k < alpha.len() {
+                if v[i] == alpha[k] {
+                    ok = true;
+                }
+                k += 1;
+            }
+            kani::assume(ok);
+            i += 1;
+        }
+        v
+    }
+
+    verif_harness!(c08_q_dial_direct_domain_default_port, 20, {
+        let h: [u8; 3] = sym_bytes(b"ab.-");
+        dial_case(&UrlSpec::simple(false, &h), None);
+    });
+    verif_harness!(c08_q_dial_direct_domain_explicit_port, 20, {
+        let h: [u8; 2] = sym_bytes(b"ab.");
+        let port: u16 = kani::any();
+        kani::assume(port >= 1000 && port <= 9999);
+        let mut s = UrlSpec::simple(false, &h);
+        // the port *value* is symbolic; its decimal text only has to have the right length for the
+        // factory (connect() reads the numeric field, never the text)
+        s.port = Some((port, b"8080"));
+        dial_case(&s, None);
+    });
+    verif_harness!(c08_q_dial_direct_v6, 20, {
+        let mut s = UrlSpec::simple(false, b"");
+        s.host = HostSpec::V6([0x2001, 0xdb8, 0, 0, 0, 0, 0, 1], b"2001:db8::1");
+        dial_case(&s, None);
+    });
+    verif_harness!(c08_q_dial_http_via_http_proxy, 20, {
+        let h: [u8; 2] = sym_bytes(b"ab.");
+        let p: [u8; 2] = sym_bytes(b"pq");
+        let mut ps = UrlSpec::simple(false, &p);
+        ps.port = Some((3128, b"3128"));
+        dial_case(&UrlSpec::simple(false, &h), Some(&ps));
+    });
+    verif_harness!(c08_q_dial_http_via_https_proxy_default_port, 20, {
+        let p: [u8; 2] = sym_bytes(b"pq");
+        let mut us = UrlSpec::simple(false, b"origin");
+        us.port = Some((8080, b"8080"));
+        dial_case(&us, Some(&UrlSpec::simple(true, &p)));
+    });
+    verif_harness!(c08_t_dial_direct_v4_https_is_not_tunnel, 20, {
+        let mut s = UrlSpec::simple(false, b"");
+        s.host = HostSpec::V4([10, 0, 0, 1], b"10.0.0.1");
+        s.port = Some((81, b"81"));
+        dial_case(&s, None);
+    });
+    verif_harness!(c08_qtwin_dial, 20, {
+        dial_case(&UrlSpec::simple(false, b"ab"), None);
+        assert!(false, "twin: must be reported as FAILURE");
+    });
+}
